@@ -29,8 +29,11 @@ def run(rep, facts):
             fe = [c for c in r.calls if c[0].endswith("from_elem")]
             for c in fe:
                 n = ir.peel(c[1][1])
-                if cv(c[1][0]) == 0 and n[0] == 'call' and n[1] == "Config::aligned_bufsize" and ir.peel(n[2][0])[0] == 'param':
-                    ok = True
+                if cv(c[1][0]) == 0 and n[0] == 'call' and n[1] == "Config::aligned_bufsize" and n[2]:
+                    a0 = ir.peel(n[2][0])
+                    # `config.aligned_bufsize()` or the same helper as an associated function of `config.buffer_size`
+                    if a0[0] == 'param' or (a0[0] == 'field' and a0[2] == 'buffer_size' and ir.peel(a0[1])[0] == 'param'):
+                        ok = True
         if ok:
             rep.ok("R6.1", P.split("::")[-2] + "::new", "buffer = vec![0; config.aligned_bufsize()]", b.loc())
         else:
@@ -127,6 +130,8 @@ def run(rep, facts):
     classes = set()
     for e in ends:
         bs = e.heap.get("buffer_size")
+        if bs is None and b.argc == 1 and isinstance(it.arg_env.get(1), R.Lin):
+            bs = it.arg_env[1]          # written as an associated function of the configured size
         ret = e.ret
         if not isinstance(bs, R.Lin) or not isinstance(ret, R.Lin):
             bad.append(("the result is not a linear form of buffer_size", e.trace))
